@@ -214,6 +214,9 @@ func (k *c04) judgeTree(c *core.Ctx, i int, dir string, j *gen.Journal, r *rand.
 	tj := j.Clone()
 	tj.Shuffle(r)
 	files := tj.SplitTree(r, 3, 5)
+	if r.Intn(4) == 0 {
+		files = tj.SplitWide(r)
+	}
 	tdir := dir + "/tree"
 	core.WriteFiles(tdir, files)
 	defer os.RemoveAll(tdir)
